@@ -157,15 +157,19 @@ Definition show_daily (c : dcase) :=
    stream ds: which record of a repeated time stamp survives.  A record is (utc minutes, has a temperature, has any weather
    reading, has a usage reading); expected: for every stamp of data.df, whether its temperature had to be gap-filled (no selected record
    there, or the selected record carries no weather). *)
-Definition dsrec := (Z * bool * bool * bool)%type.   (* utc, temperature present, some weather cell present, usage present *)
-Definition to_rec (r : dsrec) : rec (bool * bool) unit :=
-  let '(u, te, anyw, us) := r in {| q_utc := u; q_w := (te, anyw); q_obs := if us then Some tt else None |}.
+Definition dsrec := (Z * bool * bool * option bool)%type.
+(* utc, temperature present, some weather cell present, usage: None = NaN, Some true = exactly 0, Some false = another value *)
+Definition to_rec (r : dsrec) : rec (bool * bool) bool :=
+  let '(u, te, anyw, us) := r in {| q_utc := u; q_w := (te, anyw); q_obs := us |}.
 Definition dedup_of_z (n : Z) : dedup_policy := if Z.eqb n 0 then KeepFirst else DropEmptyKeepFirst.
+Definition zero_of_z (n : Z) : zero_policy := if Z.eqb n 0 then ZeroUsageCell else ZeroWholeRow.
 Definition no_weather (w : bool * bool) : bool := negb (snd w).
 
-Definition check_ds (c : Z * list dsrec * list (Z * bool)) : bool :=
-  let '(p, recs, expected) := c in
-  let sel := select no_weather (dedup_of_z p) (map to_rec recs) in
+(* case: (de-duplication, zero rule, electricity?, records in order, expected per stamp of data.df: temperature gap-filled?) *)
+Definition check_ds (c : Z * Z * bool * list dsrec * list (Z * bool)) : bool :=
+  let '(p, zp, elec, recs, expected) := c in
+  let sel := select no_weather (dedup_of_z p)
+                    (map (zero_rec (fun z : bool => z) (false, false) (zero_of_z zp) elec) (map to_rec recs)) in
   forallb (fun e : Z * bool =>
              Bool.eqb (match find_rec sel (fst e) with Some r => negb (fst (q_w r)) | None => true end) (snd e)) expected.
 
@@ -176,7 +180,7 @@ Definition one_day_calendar (_ : list Z) : list (list cal_stamp * option err) :=
 Definition fill_zero (l : list (option (option Z))) : list Z :=
   map (fun o => match o with Some (Some z) => z | _ => 0%Z end) l.
 Definition temp_empty (w : option Z) : bool := match w with None => true | Some _ => false end.
-Definition weather_oracles : oracles Z unit Z unit Z :=
+Definition weather_oracles (O : Type) : oracles Z O Z unit Z :=
   {| repair_by_obs := fun ct _ => Ok (fill0 ct);
      repair_by_calendar := calendar_fill;
      ts_feat := fun w _ => w;
@@ -200,3 +204,10 @@ Definition check_mi (c : Z * list Z * list bool * list Z) : bool :=
   list_eqb Z.eqb (meter_index_as_coded (fc_of_z p) stamps has) expected.
 Definition show_mi (c : Z * list Z * list bool * list Z) :=
   let '(p, stamps, has, expected) := c in meter_index_as_coded (fc_of_z p) stamps has.
+
+(* witness for the zero rule: 24 records of one date at 50 degrees; the usage of the first one is the argument *)
+Definition zero_recs (u : Z) : list (rec (option Z) Z) :=
+  {| q_utc := 0; q_w := Some 50%Z; q_obs := Some u |}
+  :: map (fun k => {| q_utc := (60 * Z.of_nat k)%Z; q_w := Some 50%Z; q_obs := Some 7%Z |}) (seq 1 23).
+Definition zero_stage_witness (zp : zero_policy) (recs : list (rec (option Z) Z)) : frame Z Z :=
+  public_stage (Z.eqb 0) None temp_empty one_day_calendar fill_zero (fun l => l) zp true KeepFirst recs.
